@@ -26,5 +26,9 @@ Spec == Init /\ [][Next]_vars
 ErrorIffDuplicate == outcome # "reading" => ((outcome = "error") = FrontEndError(metas))
 \* the split over attributes does not matter (attrs never enters the outcome) and the first duplicate is reported
 ReportsFirstDuplicate == outcome = "error" => \E a \in 1..(i - 2) : metas[a] = metas[i - 1] /\ metas[a] \notin MultiUse
-InstancesOutsideDomain == \A x \in Instances : ~InDomain(x)
-=============================================================================
+InstancesOutsideDomain == (\A x \in Instances : ~InDomain(x)) /\ (\A x \in Controls : InDomain(x)) /\ Instances \cap Controls = {}
+\* every context an instance is placed in has a control
+ContextsHaveControls == \A x \in Instances : x.rule \notin {"non_enum"} => \E c \in Controls : c.derive = x.derive /\ c.ctx = x.ctx
+========================================================================\* facts about the (constant) instance list: checked once, when the model is loaded
+ASSUME InstancesOutsideDomain /\ ContextsHaveControls
+=====
